@@ -158,3 +158,58 @@ def to_case(ob):
     if rate and low is not None and n and 0 < rate < 1e6 and 1 <= n <= 64:
         out.append({"bank": "tri", "kind": "init", "rate": rate, "low_hz": low, "high_hz": high, "num_filts": n, "scale": "mel"})
     return out + c05_tri.standard_cases("tri")
+
+
+# ------------------------------------------------------------------------------------------
+# get_frequency_response (C06: "the half=True response equals the leading bins of the full one with the documented length, real banks are
+# Hermitian-symmetric, analytic triangular filters vanish on negative frequencies"): for every vertex triple, rate, width >= 2 and filter,
+#   length      width, or with half=True  width // 2 + 1 (even width) / (width + 1) // 2 (odd width)
+#   values      bin k holds the triangle TRI(k) (zero outside the filter's band); a real (not analytic) bank's FULL response also holds
+#               TRI(width - k) at bin k >= 1 - the mirror image, which never collides with the band itself because the band ends at or
+#               below the Nyquist bin (class invariant: the last vertex is at most rate / 2)
+#   corollaries half == leading bins of the full response (both are TRI(k) there), Hermitian symmetry of the real bank's full response,
+#               an analytic bank's full response is zero above the Nyquist bin
+# ------------------------------------------------------------------------------------------
+def setup_frequency(half):
+    def _setup(ex, st):
+        setup_method(ex, st, half=half)
+    return _setup
+
+
+def contract_frequency(half):
+    consts = dict(CONSTS_M)
+    consts["MIRR"] = SpecFn(lambda ev: z3.BoolVal(False) if half else z3.Not(Zb(ev.st.fields[("self", "_analytic")])))
+    consts["HALF"] = SpecFn(lambda ev: z3.BoolVal(bool(half)))
+    consts["DFT"] = SpecFn(lambda ev: (z3.If(ev.ex.ctx["w"] % 2 == 1, (ev.ex.ctx["w"] + 1) / 2, ev.ex.ctx["w"] / 2 + 1)) if half else ev.ex.ctx["w"])
+    cell = ("ite(left_idx <= j and j < {ub}, TRI(j), ite(MIRR() and j >= 1 and left_idx <= width - j and width - j < {ub}, TRI(width - j), 0))")
+    return Contract(
+        target=f"filters:{CLS}.get_frequency_response",
+        uses=["A-REAL", "A-PYSEM"],
+        consts=consts,
+        loops={0: LoopSpec(kind="for", var="idx", invariant=[
+            ("range", "left_idx <= idx and 0 <= left_idx and len(res) == DFT() and dft_size == DFT() and "
+                      "idx <= max(left_idx, min(dft_size, right_idx + 1))"),
+            ("band_ends_at_or_below_nyquist", "2 * right_idx <= width"),
+            ("done", "forall(j, 0, len(res), res[j] == " + cell.format(ub="idx") + ")"),
+        ])},
+        ensures=[
+            ("documented_length", "len(result) == DFT()"),
+            ("triangle_where_no_mirror_image_is_added", "implies(not MIRR(), forall(k, 0, len(result), result[k] == TRI(k)))"),
+            ("real_bank_full_response_is_hermitian", "implies(MIRR(), forall(k, 1, width, result[k] == result[width - k]))"),
+            ("real_bank_full_response_holds_the_triangle_on_the_leading_bins", "implies(MIRR(), forall(k, 0, width // 2 + 1, result[k] == TRI(k)))"),
+            ("analytic_bank_vanishes_above_nyquist", "implies(not MIRR() and not HALF(), forall(k, 0, width, implies(2 * k > width, result[k] == 0)))"),
+        ],
+    )
+
+
+def to_case_frequency(ob):
+    """C06 stand-in cases for the triangular bank: small and default-sized banks, real and analytic, every small width (even / odd), the
+    filters at both ends and in the middle - the stand-in compares half / full / truncated representations of the real object"""
+    out = []
+    for r, nf, lo, hi in ((8000.0, 3, 20.0, None), (16000.0, 10, 0.0, None), (100.0, 2, 1.0, None), (8000.0, 5, 0.0, 4000.0)):
+        for an in (False, True):
+            sp = dict(bank="tri", scale={"name": "mel"}, num_filts=nf, low_hz=lo, high_hz=hi, rate=r, analytic=an)
+            for k in sorted({0, nf // 2, nf - 1}):
+                for w in list(range(2, 34)) + [63, 64, 65, 127, 128, 129, 256, 257]:
+                    out.append({"bank": sp, "filt": k, "width": w})
+    return out
